@@ -296,4 +296,67 @@ class Wrappers(SubCheck):
             env.scratch.drop(path)
 
 
-SUBCHECKS = [KeyPairs(), Wrappers()]
+class SignaturePairs(SubCheck):
+    """Generated pairs of call signatures beyond the exhaustive arity (up to 6 positionals, keyword names a-d), plus a
+    derived twin of the first signature; also the target of the atheris campaign (args_to_key is branchy pure Python)."""
+
+    name = 'signature_pairs'
+
+    def examples(self, tier):
+        return 400 if tier == 'quick' else 20000
+
+    def strategy(self, tier):
+        v = st.one_of(st.sampled_from(ALPHA), st.sampled_from([2, 'b', (None,), ('b', None), ('a', ('a', 1)), (None, 'a', 1), 1.5, b'a']), st.tuples(st.sampled_from(['a', 'b', 'c']), st.sampled_from(ALPHA)))
+        names = ['a', 'b', 'c', 'd']
+        kw = st.dictionaries(st.sampled_from(names), v, max_size=4).map(lambda d: tuple(d.items()))
+        sig = st.tuples(st.lists(v, max_size=6).map(tuple), kw)
+        # (a tuple mapped to a dict: hypothesis.fuzz_one_input rejected every buffer for the equivalent fixed_dictionaries)
+        return st.tuples(
+            st.booleans(),
+            st.sampled_from(IGNORES + [(2,), ('b', 'c'), (0, 1, 'a')]),
+            sig,
+            sig,
+            st.sampled_from(['none', 'kw-to-pos', 'pos-to-kw', 'drop-sep', 'reorder']),
+        ).map(lambda t: {'typed': t[0], 'ignore': t[1], 's1': t[2], 's2': t[3], 'twin': t[4]})
+
+    def execute(self, case, env):
+        from diskcache.core import args_to_key
+
+        typed, ignore = case['typed'], set(case['ignore'])
+        s1 = (tuple(case['s1'][0]), tuple(tuple(p) for p in case['s1'][1]))
+        s2 = (tuple(case['s2'][0]), tuple(tuple(p) for p in case['s2'][1]))
+        sigs = [s1, s2]
+        a, k = s1
+        twin = case['twin']
+        if twin == 'kw-to-pos' and k:
+            sigs.append((a + (None,) + tuple(x for item in sorted(k) for x in item), ()))
+            sigs.append((a + (None,) + tuple(sorted(k)), ()))
+        elif twin == 'pos-to-kw' and len(a) >= 2 and type(a[-2]) is str and a[-2] in ('a', 'b', 'c', 'd'):
+            sigs.append((a[:-2], ((a[-2], a[-1]),)))
+        elif twin == 'drop-sep' and a and a[-1] is None:
+            sigs.append((a[:-1], k))
+        elif twin == 'reorder' and len(k) >= 2:
+            sigs.append((a, tuple(reversed(k))))
+        groups = {}
+        for args, kw in sigs:
+            if len({name for name, _ in kw}) != len(kw):
+                continue
+            key = args_to_key(('f',), args, dict(kw), typed, ignore)
+            sk = strict(key)
+            res = echo_result(args, kw, ignore)
+            other = groups.get(sk)
+            if other is None:
+                groups[sk] = (args, kw, res)
+            elif not equivalent(other[2], res, typed):
+                raise Violation(
+                    'C16/shared-entry/%s' % collision_class((other[0], other[1]), (args, kw)),
+                    'typed=%r ignore=%r: f(*%r, **%r) and f(*%r, **%r) get the same cache key %s but the function returns %r vs %r'
+                    % (typed, sorted(map(repr, ignore)), other[0], dict(other[1]), args, dict(kw), short(key, 200), other[2], res),
+                )
+        return {'nontrivial': len(sigs) > 2 or len(groups) < len(sigs), 'classes': ['twin=' + twin, 'typed=%r' % typed]}
+
+
+from ..fuzz import FuzzCampaign  # noqa: E402
+
+SUBCHECKS = [KeyPairs(), Wrappers(), SignaturePairs()]
+SUBCHECKS.append(FuzzCampaign('c16', SUBCHECKS[2], runs_quick=3000, runs_thorough=150000))
